@@ -7,14 +7,17 @@ VARIABLES d, k, c, inputOk
 vars == <<d, k, c, inputOk>>
 
 OpNames == <<"alpha", "getBeta", "Gamma_op", "delta2">>
-OpShapes == {[style |-> s, parts |-> p, action |-> a, header |-> h, fault |-> f] :
-               s \in {"", "document", "rpc"}, p \in {"element", "type"}, a \in {"", "urn:svc/act"}, h \in BOOLEAN, f \in BOOLEAN}
+OpShapes == {[style |-> s, parts |-> p, action |-> a, header |-> h, fault |-> f, nparts |-> n, complexPart |-> cp] :
+               s \in {"", "document", "rpc"}, p \in {"element", "type"}, a \in {"", "urn:svc/act"}, h \in BOOLEAN, f \in BOOLEAN,
+               n \in {1, 2}, cp \in BOOLEAN}
 \* parts given by type only make sense for rpc
-Valid(bs, sh) == IF (IF sh.style = "" THEN bs ELSE sh.style) = "document" THEN sh.parts = "element" ELSE sh.parts = "type"
+Valid(bs, sh) == IF (IF sh.style = "" THEN bs ELSE sh.style) = "document"
+                 THEN sh.parts = "element" /\ sh.nparts = 1 /\ ~sh.complexPart      \* one body part (WS-I), by element
+                 ELSE sh.parts = "type"
 \* the definition is built operation by operation (so that -simulate can walk large spaces),
 \* then the client exchange runs on operation k
-Init == /\ \E bs \in {"document", "rpc"}, tr \in {SOAPHTTP, "http://example.com/other-transport"} :
-             d = [tns |-> "urn:svc", bindingStyle |-> bs, location |-> "http://example.com/svc", transport |-> tr, ops |-> <<>>]
+Init == /\ \E bs \in {"document", "rpc"}, tr \in {SOAPHTTP, "http://example.com/other-transport"}, ty \in {"inline", "imported"} :
+             d = [tns |-> "urn:svc", bindingStyle |-> bs, location |-> "http://example.com/svc", transport |-> tr, types |-> ty, ops |-> <<>>]
         /\ k = 0 /\ inputOk \in BOOLEAN
         /\ c = CInit(<< <<"x-user", "1">> >>)
 AddOp == /\ k = 0 /\ Len(d.ops) < MaxOps
